@@ -195,7 +195,7 @@ def c18(i, j, typed, use_async, choices, second=None):
     d = E.scratch()
     res = err = None
     try:
-        with E.deadline(15):
+        with E.deadline(25):
             task = D.LateAssign(x=1, typed=typed)
             if use_async:
                 res, err, ev = S.run_async(task, d, choices)
